@@ -27,7 +27,7 @@ CLAIMED = {
  "C04": ("fault_enumeration", "4.1", "the simulator owns the reader callables and the stored bytes: four hand-built base packs are fed to six ingestion paths of the disk store (incl. a push through ReceivePackHandler) and three of the memory store under simulator-chosen read chunking, with every single-bit flip (also with a recomputed trailer), byte substitutions, every truncation point, appended tails and ~45 grammar-aware attacks (counts, trailer, OFS/REF redirections incl. self/2-/3-cycles, size lies, zlib garbage, decompression bombs, deep chains, unparsable objects); after each ingestion the store is compared with its pre-state (same instance and fresh process) or every new object is re-hashed; seven kinds of stored file are damaged the same way and read back by a fresh Repo",
          "mutation families are sharded per plan: one plan covers a sixth/eighth of the offsets, a quick run many plans; wall-clock net of 5 s only counts after a 10x solo re-run; four recorded findings cover stored files that carry no read-time integrity check",
          "deterministic simulation of the stream and storage seams: exhaustive single-fault enumeration (bit/byte/truncation) over small inputs plus structured attacks, with store post-state oracle"),
- "C16": ("exploration", "4.9", "seeded operation histories (6-30 steps) over ten names with directory/file collisions, symref chains and loops, attached/detached HEAD, loose/packed/both refs and peeled tags, covering the whole RefsContainer surface incl. import_refs, interleaved with pack_refs(all|tags), re-opening, alternating between two handles on one directory, stale *.lock fault steps and invalid names, under coarse/zero-step virtual clocks (stat-validated packed-refs cache); after every step the observable state through the same, a fresh and the other handle is compared with a map model; the dict and reftable backends run the restricted sequences",
+ "C16": ("exploration", "4.9", "seeded operation histories (6-30 steps) over ten names with directory/file collisions, symref chains and loops, attached/detached HEAD, loose/packed/both refs and peeled tags, covering the whole RefsContainer surface incl. import_refs, interleaved with pack_refs(all|tags), re-opening, alternating between two handles on one directory, stale *.lock fault steps and invalid names, under coarse/zero-step virtual clocks (stat-validated packed-refs cache); after every step the observable state through the same, a fresh and the other handle is compared with a map model; the dict and reftable backends run the restricted sequences; NamespacedRefsContainer over the files backend runs the full ones, and the enclosing repository must see exactly the view's refs under refs/namespaces/<ns>/ and its own bystander ref untouched",
          "documented RefsContainer contract is the model; handles used strictly in turn; check_ref_format vs git check-ref-format and C git's listing are not decided; three recorded reftable divergences are normalised so the rest of each sequence is still checked",
          "deterministic simulation: simfs + virtual clock, stepwise refinement of operation histories against a reference map model, two handles as alternating processes, fault steps (stale locks)"),
  "C17": ("exploration", "4.10", "every mutating system call of a checkout is resolved (real path of its parent at that instant) by a confinement monitor and must land inside the work tree; the control directory is snapshotted around each operation and may change only in the files checkout maintains; 1-3 adversarial trees (unsafe names, NTFS/HFS spellings, symlinks to absolute/parent/.git targets, names changing kind between trees, odd mode bits) (also names that relate: a flat entry 'link/payload' next to the symlink 'link', a symlink whose name extends a populated sibling directory's) are materialised in sequence by clone, checkout, switch, checkout --force, reset --hard, reset --mixed+--hard, restore, stash pop, apply_patch, am, build_index_from_tree and update_working_tree with protectNTFS/HFS on/off and optional injected errors mid-checkout; canaries outside the work tree and final mode bits are checked; a mutating call that would land outside the simulated disk is recorded and refused by the simulator, never executed",
